@@ -60,6 +60,10 @@ def run_shard(prop: str, tier: str, seed: int, shard: int, nshards: int, replay=
     from rv.core import ctx as _c
 
     _c.CURRENT = ctx
+    from rv.gen import geoms as _g
+
+    _g.set_rng(__import__("random").Random(f"construct:{prop}:{seed}:{shard}"))
+    _g.PATHS_USED.clear()
     reach.start()
     try:
         if replay is not None:
@@ -77,6 +81,8 @@ def run_shard(prop: str, tier: str, seed: int, shard: int, nshards: int, replay=
     for k, v in counts.items():
         if not anchors or k.split("::")[0].startswith(anchors):
             ctx.reach[k] += v
+    if _g.PATHS_USED:
+        ctx.extra["geometry_construction_paths"] = dict(_g.PATHS_USED)
     return ctx
 
 
